@@ -23,7 +23,7 @@ PLAN = {
     "thorough": {"a": (1500, 8000), "b": (600, 4000)},
 }
 STALL_S = 20          # an API call that has not returned / no progress at all for this long => stall
-WALL_S = 900          # hard limit per process
+WALL_S = 600          # hard limit per process (a run takes seconds; the in-process watchdog covers every library call)
 MAX_STACKS_PER_KEY = 6
 MAX_STALL_REPRO = 3   # distinct stall pictures reproduced in isolation
 MAX_STALLS = 8        # watchdog expiries after which the remaining cases are not started
@@ -194,7 +194,7 @@ def _stall_key(detail):
     if not m:
         return kind + ":?"
     stuck = set()
-    for x in re.split(r",(?=[A-D]=)", m.group(1)):
+    for x in re.split(r",(?=[A-DM]=)", m.group(1)):
         if "=" in x:
             stuck.add(x.split("=", 1)[1].split("[", 1)[0])
     stuck = sorted(stuck - {"done", "pace", "busy", "?"})
